@@ -41,6 +41,14 @@ func c17RunSize(b core.Batch, r *core.Recorder) {
 	// ---- String/Parse round trip
 	rng := b.Rand("c17-size")
 	vals := []int64{1, 2, 1023, 1024, 1025, 1536, 2047, 2048, 1<<20 - 1, 1 << 20, 1<<20 + 1, 3 << 19, 1<<30 - 1, 1 << 30, 1<<30 + 1, 1<<40 - 1, 1 << 40, 1<<40 + 1, 10 << 30, 500 << 20, 1<<62 + 12345, 1<<63 - 1}
+	for sh := uint(0); sh <= 62; sh++ {
+		// every power of two, its neighbours and small multiples: exact multiples of each unit, also beyond 1024T
+		for _, m := range []int64{1, 3, 5, 1023, 1025} {
+			if v := m << sh; v>>sh == m && v > 0 {
+				vals = append(vals, v, v-1, v+1)
+			}
+		}
+	}
 	for i := 0; i < b.Int("n", 20000); i++ {
 		switch i % 4 {
 		case 0:
